@@ -1,14 +1,38 @@
 //! engine `ledger` — C09: every block obtained from a plugged-in allocator is returned to it
 //! exactly once.
 //!
-//! Part 1 (this file, top): a counting `BrotliAlloc` (`CAlloc`).  Every instance has an id and its
-//! own ledger; a block (`CBlock<T>`) remembers the ledger that produced it.  `free_cell` through
-//! another instance = "foreign"; a non-empty block that is dropped without `free_cell` = "dropped"
-//! (with a real pool allocator that memory is gone for good); still live at the end of an entry
-//! point = "leak".  Double free cannot be expressed in safe Rust (blocks are moved), it is checked
-//! on the C ABI where blocks are raw pointers (`FfiSession`).
+//! **Counting allocators.**  `CAlloc` implements `alloc_no_stdlib::Allocator<T>` for every `T`
+//! (`Clone + Default`, like the crate's own C-ABI allocator), so it is a `BrotliAlloc`.  Every instance
+//! has an id and its own ledger; a block (`CBlock<T>`) remembers the ledger that produced it.
+//! `free_cell` through another instance = "foreign"; a non-empty block that is dropped without
+//! `free_cell` = "dropped" (with a pool allocator that memory is gone for good); still live after an
+//! entry point returned = "leak".  Double free cannot be expressed in safe Rust (blocks are moved); it
+//! is checked on the C ABI, where blocks are raw pointers: `FfiSession` = counting `alloc_func` /
+//! `free_func` with one `opaque` per allocator (unknown / repeated / cross-opaque frees are recorded).
 //!
-//! `bvh ledger d9`  prints the minimal reproductions of the known defects (no files written).
+//! **Oracles (search stage, real code only).**
+//! * streaming instances (Rust API with `CAlloc`, C ABI with the callbacks), after EVERY call:
+//!   live set == exactly the blocks held by the public long-lived fields (`snapshot`, compared by
+//!   pointer and byte length) and temporaries allocated == freed in the call → `ledger:scoped-unbalanced`
+//!   (this is the run-time check of the Lean oracle hypothesis `ScopedBalanced`), `ledger:field-not-live`,
+//!   `ledger:field-block-lost` (a field's old block lost its reference without `free_cell`);
+//! * after destroy / drop / return of every entry point: nothing live (`…-leak`), nothing dropped
+//!   without `free_cell` (`…-dropped`), nothing freed through another instance (`…-foreign`), no bad
+//!   free seen by the C callbacks (`ledger:ffi-bad-free`); named defects keep their own signatures
+//!   (`ledger:ffi-destroy-leak`, `ledger:ffi-multi1-leak`, `ledger:oneshot-q10-foreign-free`,
+//!   `ledger:set-dict-drops-hasher`); a panic of the code under test is `ledger:*-panic`.
+//!
+//! **Correspondence lines** (see `lean/BV/Drive/Ledger.lean` for the grammar):
+//! `ledger inst <rust|ffi> <q> <call>…` — per call, what happened to each slot (derived from the
+//! allocator's event log and the field snapshot) ↔ the model must accept the event and reproduce the
+//! fates and the owed/alloc/free counters; `ledger ep <entry point> …` — class of the final ledger
+//! (`clean`/`leak`/`foreign`); `ledger log <events>` — the raw log of the opaque entry points judged
+//! by the Lean spec-side judge ↔ the Rust accounting.
+//!
+//! Non-trivial case = at least one block was allocated (multi-threaded: every per-thread allocator
+//! was used).  Regression corpus = the minimal reproductions of the defects found with this engine,
+//! in code (`d9_*`), run first.  `bvh ledger d9` prints them; `bvh ledger only <kind 1..6>` runs one
+//! family.  Every random choice comes from `Rng::new(seed ^ kind ^ index)`.
 use crate::prng::Rng;
 use crate::util::*;
 use alloc_no_stdlib::{Allocator, SliceWrapper, SliceWrapperMut};
@@ -1040,6 +1064,26 @@ pub fn run_cmd(args: &Args) {
     let seed = args.seed;
     let mut corr = Corr::new(&args.out);
     let mut rep = Report::default();
+    // regression corpus first: the minimal reproductions of the defects found with this engine
+    for (q, w) in [(5u32, 22u32), (11, 18), (0, 18), (1, 18)] {
+        let (cnt, bytes, _na, _nf) = d9_ffi_stream(q, w, 100000);
+        rep.evaluations += 1; rep.nontrivial += 1; rep.count("corpus.ffi_destroy");
+        if cnt != 0 { rep.violation("ledger:ffi-destroy-leak", &format!("corpus: create/stream/destroy q{} lgwin{}: {} blocks / {} bytes never freed", q, w, cnt, bytes), format!("{{\"engine\":\"ledger\",\"kind\":\"corpus-ffi-destroy\",\"q\":{},\"lgwin\":{}}}", q, w)); }
+    }
+    {
+        let (cnt, bytes, _na, _nf) = d9_ffi_multi1(5, 18, 100000);
+        rep.evaluations += 1; rep.nontrivial += 1; rep.count("corpus.ffi_multi1");
+        if cnt != 0 { rep.violation("ledger:ffi-multi1-leak", &format!("corpus: 1-thread BrotliEncoderCompressMulti: {} blocks / {} bytes never freed", cnt, bytes), "{\"engine\":\"ledger\",\"kind\":\"corpus-ffi-multi1\"}".to_string()); }
+        let s1 = d9_oneshot_q10();
+        rep.evaluations += 1; rep.nontrivial += 1; rep.count("corpus.oneshot_q10");
+        // "(alloc, free, foreign, dropped)" of both allocators: foreign must be 0 and nothing live
+        let clean = s1.matches(", 0, 0) live=0").count() == 2;
+        if !clean { rep.violation("ledger:oneshot-q10-foreign-free", &format!("corpus: {}", s1), "{\"engine\":\"ledger\",\"kind\":\"corpus-oneshot-q10\"}".to_string()); }
+        let s2 = d9_set_dict_twice();
+        rep.evaluations += 1; rep.nontrivial += 1; rep.count("corpus.set_dict_twice");
+        if !s2.ends_with("0, 0) live=0") { rep.violation("ledger:set-dict-drops-hasher", &format!("corpus: {}", s2), "{\"engine\":\"ledger\",\"kind\":\"corpus-set-dict-twice\"}".to_string()); }
+        rep.sample(format!("corpus: oneshot q10: {} || set_dict twice: {}", s1, s2));
+    }
     let m = if thorough { 8 } else { 1 };
     let plan: Vec<(u64, usize)> = vec![(1, 660 * m), (2, 360 * m), (3, 520 * m), (4, 240 * m), (5, 240 * m), (6, 160 * m)];
     let only: Option<u64> = if args.rest.first().map(|s| s.as_str()) == Some("only") { args.rest.get(1).and_then(|x| x.parse().ok()) } else { None };
